@@ -10,6 +10,7 @@ struct IMap
 {
   virtual ~IMap() = default;
   virtual std::string describe() const = 0;
+  virtual std::string cells() const = 0;
   virtual std::string idx(const Toks & t) const = 0;
   virtual std::string centre(const Toks & t) const = 0;
   virtual std::string loc(const Toks & t) const = 0;
@@ -48,6 +49,17 @@ struct Map : IMap
     }
   }
 
+  // The harness reads the centre TABLES only inside the protocol op `map.scan` and computes centres only inside protocol ops: an
+  // observer with a side effect (seeded change c13f: tables filled lazily, by whichever accessor is called first) must not be
+  // triggered behind the protocol's back. `map.newq` / `map.symq` construct WITHOUT computing any centre.
+  std::string cells() const override
+  {
+    const auto & n = g->getNumberOfCellsAlongAxes();
+    std::string o = "n";
+    for (size_t i = 0; i < DIM; ++i) { o += " " + std::to_string(n(i)); }
+    return o;
+  }
+
   std::string describe() const override
   {
     const auto & n = g->getNumberOfCellsAlongAxes();
@@ -56,7 +68,7 @@ struct Map : IMap
     typename G::CellIndexes first = G::CellIndexes::Zero(), last;
     bool ok = true;
     for (size_t i = 0; i < DIM; ++i) {
-      ok = ok && n(i) >= 1 && g->getCellCentersPositionAlong(i).size() == n(i);
+      ok = ok && n(i) >= 1;
       last(i) = n(i) - 1;
     }
     if (!ok) { return o + " malformed-table"; }
@@ -86,7 +98,7 @@ struct Map : IMap
     typename G::CellIndexes k;
     for (size_t i = 0; i < DIM; ++i) {
       k(i) = vp::parseU(t[1 + i]);
-      if (k(i) >= g->getCellCentersPositionAlong(i).size()) { throw vp::BadOp(); }
+      if (k(i) >= g->getNumberOfCellsAlongAxes()(i)) { throw vp::BadOp(); }
     }
     auto c = g->computeCellCenterPosition(k);
     std::string o;
@@ -102,7 +114,7 @@ struct Map : IMap
     for (size_t i = 0; i < DIM; ++i) { p(i) = vp::parseF<S>(t[1 + i]); }
     auto k = g->computeCellIndexes(p);
     for (size_t i = 0; i < DIM; ++i) {
-      if (k(i) >= g->getCellCentersPositionAlong(i).size()) { return o + " oob"; }
+      if (k(i) >= g->getNumberOfCellsAlongAxes()(i)) { return o + " oob"; }
     }
     auto c = g->computeCellCenterPosition(k);
     for (size_t i = 0; i < DIM; ++i) { o += " " + vp::fmtF(c(i)); }
@@ -148,17 +160,19 @@ static void reset() { cur.reset(); }
 static std::string handle(const Toks & t)
 {
   const std::string & op = t[0];
-  if ((op == "map.new" || op == "map.sym") && t.size() >= 3) {
-    bool sym = op == "map.sym";
+  if ((op == "map.new" || op == "map.sym" || op == "map.newq" || op == "map.symq") && t.size() >= 3) {
+    bool sym = op == "map.sym" || op == "map.symq";
+    const bool quiet = op == "map.newq" || op == "map.symq";
     uint64_t d = vp::parseU(t[2]);
     if (t[1] == "f64" && d == 2) { cur.reset(new Map<double, 2>(t, sym)); }
     else if (t[1] == "f64" && d == 3) { cur.reset(new Map<double, 3>(t, sym)); }
     else if (t[1] == "f32" && d == 2) { cur.reset(new Map<float, 2>(t, sym)); }
     else if (t[1] == "f32" && d == 3) { cur.reset(new Map<float, 3>(t, sym)); }
     else { throw vp::BadOp(); }
-    return cur->describe();
+    return quiet ? cur->cells() : cur->describe();
   }
   if (!cur) { throw vp::BadOp(); }
+  if (op == "map.describe" && t.size() == 1) { return cur->describe(); }
   if (op == "map.idx") { return cur->idx(t); }
   if (op == "map.centre") { return cur->centre(t); }
   if (op == "map.loc") { return cur->loc(t); }
